@@ -472,6 +472,8 @@ SM = "src/engine/search/mod.rs"
 MUTANTS = [
     {"name": "poll throttle by exact match on the node count (seed C09-11a)", "expect": "C09-POLL/poll/throttle-exact",
      "edits": __import__("shared_mutants").edits_from_patch("seeded/C09-11a/patch.diff")},
+    {"name": "table store on the abort path behind a closure that wraps the recursive calls (seed C09-14a)", "expect": "C09-ERR/engine::search::negamax::negamax->{closure#1}",
+     "edits": __import__("shared_mutants").edits_from_patch("seeded/C09-14a/patch.diff")},
     {"name": "TimeStrategy::start() at the top of search() lowers the stop flag (seed C09-10a)", "expect": "C09-POLL/flag-writer/start",
      "edits": __import__("shared_mutants").edits_from_patch("seeded/C09-10a/patch.diff")},
     {"name": "poll margin subtracted from a fixed move time (seed C09-5b)", "expect": "C09-POLL/panic",
